@@ -247,7 +247,7 @@ SCENARIOS = {"p2p": make}
 
 
 def run(ctx: Ctx) -> None:
-    bound = 4 if ctx.thorough else 2
+    bound = 5 if ctx.thorough else 3
     ctx.rule = (
         f"real Management + P2PConnection over a fake cEMI layer (L_Data.con immediate): connect, 1-3 requests (A_DeviceDescriptor_Read; also alternating with A_Memory_Read so that an answer of the wrong type for one request has the right type for the next; also preceded by an A_Restart sent with wait_for_ack=False), disconnect; for every numbered data frame the simulated device "
         f"chooses an acknowledgement from {ACKS} and a reaction from {RESPS} (frames delivered through the real handle_raw_cemi, ack and response in the same loop iteration by default); EVERY schedule "
